@@ -16,43 +16,44 @@
 (***************************************************************************)
 EXTENDS StartupRules, TLC
 CONSTANTS Versions,        \* the binaries that are ever started on this file
-          Checkpoint,      \* DBVerifyCheckpointVersion
+          Checkpoints,     \* the possible values of DBVerifyCheckpointVersion (fixed for the life of a file)
           Stored(_)        \* version recorded for a binary
-VARIABLES stored,          \* the recorded version, or None
+VARIABLES cp,              \* the checkpoint version of this file's binaries
+          stored,          \* the recorded version, or None
           writer,          \* the binary whose Store was the last one, or None
           run,             \* None, or the start in progress
           refusedOwn,      \* a binary was refused on a file it was itself the last to record
           unverified       \* a start went on without a verification the rule demands
-vars == <<stored, writer, run, refusedOwn, unverified>>
+vars == <<cp, stored, writer, run, refusedOwn, unverified>>
 
-NeedsVerify(app, st, force) == NeedsVerifyAt(app, st, Checkpoint, force)
+NeedsVerify(app, st, force) == NeedsVerifyAt(app, st, cp, force)
 
-Init == stored = None /\ writer = None /\ run = None /\ refusedOwn = FALSE /\ unverified = FALSE
+Init == cp \in Checkpoints /\ stored = None /\ writer = None /\ run = None /\ refusedOwn = FALSE /\ unverified = FALSE
 
 Begin(a, f) == /\ run = None
                /\ run' = [app |-> a, force |-> f, step |-> "gate", verified |-> FALSE]
-               /\ UNCHANGED <<stored, writer, refusedOwn, unverified>>
+               /\ UNCHANGED <<cp, stored, writer, refusedOwn, unverified>>
 Gate == /\ run # None /\ run.step = "gate"
         /\ IF Refused(run.app, stored)
            THEN run' = None /\ refusedOwn' = (refusedOwn \/ writer = run.app)
            ELSE /\ run' = [run EXCEPT !.step = IF NeedsVerify(run.app, stored, run.force) THEN "verify" ELSE "store"]
                 /\ UNCHANGED refusedOwn
-        /\ UNCHANGED <<stored, writer, unverified>>
+        /\ UNCHANGED <<cp, stored, writer, unverified>>
 Verify == /\ run # None /\ run.step = "verify"
           /\ run' = [run EXCEPT !.step = "store", !.verified = TRUE]
-          /\ UNCHANGED <<stored, writer, refusedOwn, unverified>>
+          /\ UNCHANGED <<cp, stored, writer, refusedOwn, unverified>>
 Store == /\ run # None /\ run.step = "store"
          /\ unverified' = (unverified \/ (NeedsVerify(run.app, stored, run.force) /\ ~run.verified))
          /\ stored' = Stored(run.app)
          /\ writer' = run.app
          /\ run' = [run EXCEPT !.step = "finish"]
-         /\ UNCHANGED refusedOwn
+         /\ UNCHANGED <<cp, refusedOwn>>
 Finish == /\ run # None /\ run.step = "finish"
           /\ run' = None
-          /\ UNCHANGED <<stored, writer, refusedOwn, unverified>>
+          /\ UNCHANGED <<cp, stored, writer, refusedOwn, unverified>>
 Crash == /\ run # None
          /\ run' = None
-         /\ UNCHANGED <<stored, writer, refusedOwn, unverified>>
+         /\ UNCHANGED <<cp, stored, writer, refusedOwn, unverified>>
 
 Next == (\E a \in Versions, f \in BOOLEAN : Begin(a, f)) \/ Gate \/ Verify \/ Store \/ Finish \/ Crash
 Spec == Init /\ [][Next]_vars /\ WF_vars(Gate \/ Verify \/ Store \/ Finish)
